@@ -145,3 +145,114 @@ pub proof fn thm_c10_reordered(comps: Components, comps2: Components, w: Seq<Fac
     thm_ok_agree(comps, comps2, w, k_exp, area, area, lm, r, r2, idx, 1real, 1real);
     thm_ep(comps, comps2, w, k_exp, area, area, lm, r, r2, idx, 1real, 1real);
 }
+
+// ------------------------------------------------------------------------------------------------ a component split into two (or two merged)
+pub proof fn lemma_psum_concat(a: Seq<Energy>, b: Seq<Energy>, p: spec_fn(Energy) -> bool, i: int)
+    ensures psum(a + b, p, i) == psum(a, p, i) + psum(b, p, i), pany(a + b, p) == (pany(a, p) || pany(b, p)),
+    decreases b.len(),
+{
+    if b.len() == 0 { assert(a + b =~= a); }
+    else { assert((a + b).drop_last() =~= a + b.drop_last()); assert((a + b).last() == b.last()); lemma_psum_concat(a, b.drop_last(), p, i); }
+}
+/// p does not tell apart components with the same tags
+pub open spec fn tag_pred(p: spec_fn(Energy) -> bool) -> bool { forall|a: Energy, b: Energy| same_tags(a, b) ==> #[trigger] p(a) == #[trigger] p(b) }
+pub proof fn lemma_tag_preds(c: Carrier, k: Sel)
+    ensures tag_pred(p_sel(k)), tag_pred(p_selc(c, k)), tag_pred(p_avail(c)),
+{
+    assert forall|a: Energy, b: Energy| same_tags(a, b) implies #[trigger] p_sel(k)(a) == #[trigger] p_sel(k)(b) by { lemma_same_tags_sel(a, b, k); }
+    assert forall|a: Energy, b: Energy| same_tags(a, b) implies #[trigger] p_selc(c, k)(a) == #[trigger] p_selc(c, k)(b) by { lemma_same_tags_sel(a, b, k); }
+    assert forall|a: Energy, b: Energy| same_tags(a, b) implies #[trigger] p_avail(c)(a) == #[trigger] p_avail(c)(b) by { lemma_same_tags_sel(a, b, k); }
+}
+/// x1 and x2 carry the tags of x and their values add up to those of x
+pub open spec fn splits(x: Energy, x1: Energy, x2: Energy) -> bool {
+    &&& same_tags(x, x1) && same_tags(x, x2) && e_vals(x1).len() == e_vals(x).len() && e_vals(x2).len() == e_vals(x).len()
+    &&& forall|i: int| 0 <= i < e_vals(x).len() ==> rv(#[trigger] e_vals(x1)[i]) + rv(e_vals(x2)[i]) == rv(e_vals(x)[i])
+}
+pub proof fn lemma_psum_split(pre: Seq<Energy>, post: Seq<Energy>, x: Energy, x1: Energy, x2: Energy, p: spec_fn(Energy) -> bool, i: int)
+    requires splits(x, x1, x2), tag_pred(p), 0 <= i < e_vals(x).len(),
+    ensures psum(pre + seq![x1, x2] + post, p, i) == psum(pre + seq![x] + post, p, i), pany(pre + seq![x1, x2] + post, p) == pany(pre + seq![x] + post, p),
+{
+    let m1 = seq![x]; let m2 = seq![x1, x2];
+    lemma_psum_concat(pre + m1, post, p, i); lemma_psum_concat(pre, m1, p, i);
+    lemma_psum_concat(pre + m2, post, p, i); lemma_psum_concat(pre, m2, p, i);
+    assert(p(x1) == p(x) && p(x2) == p(x));
+    assert(m1.drop_last() =~= Seq::<Energy>::empty() && m1.last() == x);
+    assert(m2.drop_last() =~= seq![x1] && m2.last() == x2);
+    assert(seq![x1].drop_last() =~= Seq::<Energy>::empty() && seq![x1].last() == x1);
+    assert(psum(Seq::<Energy>::empty(), p, i) == 0real && !pany(Seq::<Energy>::empty(), p));
+    assert(psum(m1, p, i) == (if p(x) { rv(e_vals(x)[i]) } else { 0real }));
+    assert(psum(seq![x1], p, i) == (if p(x1) { rv(e_vals(x1)[i]) } else { 0real }));
+    assert(psum(m2, p, i) == psum(seq![x1], p, i) + (if p(x2) { rv(e_vals(x2)[i]) } else { 0real }));
+    assert(rv(e_vals(x1)[i]) + rv(e_vals(x2)[i]) == rv(e_vals(x)[i]));
+    assert(pany(m1, p) == (pany(m1.drop_last(), p) || p(m1.last())));
+    assert(pany(seq![x1], p) == (pany(seq![x1].drop_last(), p) || p(seq![x1].last())));
+    assert(pany(m2, p) == (pany(m2.drop_last(), p) || p(m2.last())));
+    assert(pany(m1, p) == p(x) && pany(seq![x1], p) == p(x1) && pany(m2, p) == (p(x1) || p(x2)));
+}
+/// THE SPLITTING LEMMA: one component replaced by two with the same tags whose values add up (everything still inside the value domain)
+pub proof fn lemma_inputs_split(pre: Seq<Energy>, post: Seq<Energy>, x: Energy, x1: Energy, x2: Energy)
+    requires splits(x, x1, x2), comps_wf(pre + seq![x] + post), vals_dom(pre + seq![x] + post), vals_dom(seq![x1, x2]), nsteps(pre + seq![x] + post) > 0,
+    ensures inputs_rel(pre + seq![x] + post, pre + seq![x1, x2] + post, idx_ident(nsteps(pre + seq![x] + post) as int), 1real),
+{
+    let cs = pre + seq![x] + post; let cs2 = pre + seq![x1, x2] + post;
+    let n = nsteps(cs);
+    let idx = idx_ident(n as int);
+    let np = pre.len() as int;
+    assert(cs[np] == x);
+    assert(e_vals(x).len() == n);
+    // shape of the second list
+    assert forall|j: int| 0 <= j < cs2.len() implies e_vals(#[trigger] cs2[j]).len() == n by {
+        if j < np { assert(cs2[j] == pre[j] && cs[j] == pre[j]); }
+        else if j == np { assert(cs2[j] == x1); } else if j == np + 1 { assert(cs2[j] == x2); }
+        else { assert(cs2[j] == post[j - np - 2] && cs[j - 1] == post[j - np - 2]); }
+    }
+    assert(nsteps(cs2) == n) by { assert(e_vals(cs2[0]).len() == n); }
+    assert forall|j: int, i: int| 0 <= j < cs2.len() && 0 <= i < e_vals(cs2[j]).len() implies rv(#[trigger] e_vals(cs2[j])[i]) == 0real || rv(e_vals(cs2[j])[i]) >= 1real / 100real by {
+        if j < np { assert(cs2[j] == pre[j] && cs[j] == pre[j]); }
+        else if j == np { assert(cs2[j] == seq![x1, x2][0]); } else if j == np + 1 { assert(cs2[j] == seq![x1, x2][1]); }
+        else { assert(cs2[j] == post[j - np - 2] && cs[j - 1] == post[j - np - 2]); }
+    }
+    assert forall|k: Sel| #[trigger] any_sel(cs2, k) == any_sel(cs, k) by {
+        lemma_tag_preds(Carrier::ELECTRICIDAD, k); lemma_acc_psum(cs, k, 0); lemma_acc_psum(cs2, k, 0); lemma_psum_split(pre, post, x, x1, x2, p_sel(k), 0);
+    }
+    assert forall|i2: int| 0 <= i2 < idx.len() implies #[trigger] acc_rel(cs, cs2, idx[i2], i2, 1real) by {
+        assert(idx[i2] == i2);
+        assert forall|k: Sel| #[trigger] acc(cs2, k, i2) == 1real * acc(cs, k, i2) by {
+            lemma_tag_preds(Carrier::ELECTRICIDAD, k); lemma_acc_psum(cs, k, i2); lemma_acc_psum(cs2, k, i2); lemma_psum_split(pre, post, x, x1, x2, p_sel(k), i2);
+            assert(1real * acc(cs, k, i2) == acc(cs, k, i2)) by(nonlinear_arith);
+        }
+    }
+    assert forall|c: Carrier| #[trigger] in_avail(cs2, c) == in_avail(cs, c) by {
+        lemma_tag_preds(c, Sel::Epus); lemma_avail_pany(cs, c); lemma_avail_pany(cs2, c); lemma_psum_split(pre, post, x, x1, x2, p_avail(c), 0);
+    }
+    assert forall|c: Carrier| in_avail(cs, c) implies #[trigger] carrier_rel(cs, cs2, c, idx, 1real) by {
+        let fa = filter_carrier(cs, c); let fb = filter_carrier(cs2, c);
+        assert forall|k: Sel| #[trigger] any_sel(fb, k) == any_sel(fa, k) by {
+            lemma_tag_preds(c, k); lemma_accf_psum(cs, c, k, 0); lemma_accf_psum(cs2, c, k, 0); lemma_psum_split(pre, post, x, x1, x2, p_selc(c, k), 0);
+        }
+        assert forall|i2: int| 0 <= i2 < idx.len() implies #[trigger] acc_rel(fa, fb, idx[i2], i2, 1real) by {
+            assert(idx[i2] == i2);
+            assert forall|k: Sel| #[trigger] acc(fb, k, i2) == 1real * acc(fa, k, i2) by {
+                lemma_tag_preds(c, k); lemma_accf_psum(cs, c, k, i2); lemma_accf_psum(cs2, c, k, i2); lemma_psum_split(pre, post, x, x1, x2, p_selc(c, k), i2);
+                assert(1real * acc(fa, k, i2) == acc(fa, k, i2)) by(nonlinear_arith);
+            }
+        }
+    }
+    assert(idx.len() == n);
+}
+/// C10 (split component): one component replaced by two with the same tags whose values add up: the evaluation succeeds as well and every
+/// per-carrier, whole-building and ratio figure is the same
+pub proof fn thm_c10_split(comps: Components, comps2: Components, pre: Seq<Energy>, post: Seq<Energy>, x: Energy, x1: Energy, x2: Energy,
+                           w: Seq<Factor>, k_exp: f32, area: f32, lm: bool, r: Result<EnergyPerformance>, r2: Result<EnergyPerformance>)
+    requires comps.data@ == pre + seq![x] + post, comps2.data@ == pre + seq![x1, x2] + post, splits(x, x1, x2),
+             comps_wf(comps.data@), vals_dom(comps.data@), vals_dom(seq![x1, x2]), nsteps(comps.data@) > 0,
+             ep_post(comps, w, k_exp, area, lm, r), ep_post(comps2, w, k_exp, area, lm, r2), r is Ok,
+    ensures r2 is Ok, ep_rel(r->Ok_0, r2->Ok_0, idx_ident(nsteps(comps.data@) as int), 1real, 1real),
+{
+    let n = nsteps(comps.data@) as int;
+    let idx = idx_ident(n);
+    lemma_lay_same(n, 1real); lemma_lay_same_r(n, 1real);
+    lemma_inputs_split(pre, post, x, x1, x2);
+    thm_ok_agree(comps, comps2, w, k_exp, area, area, lm, r, r2, idx, 1real, 1real);
+    thm_ep(comps, comps2, w, k_exp, area, area, lm, r, r2, idx, 1real, 1real);
+}
